@@ -39,6 +39,9 @@
  *       block at the docroot hook>,<scheme>,<uri.path>,<uri.query>,<remote address>" at the end
  *   @DOCROOT@ in the configuration is replaced by $LTV_C14_ROOT/docroot (an empty directory
  *   prepared by the check module).
+ *
+ * Regex simplification (function level):
+ *   x <hex>   configparser_simplify_regex(buffer) -> "<cond> <stored string hex>"
  */
 #include "first.h"
 #include "configfile-glue.c"
@@ -606,6 +609,19 @@ int main(void) {
         char *save = NULL;
         for (char *t = strtok_r(line, " ", &save); t && ntok < MAXTOK; t = strtok_r(NULL, " ", &save))
             tok[ntok++] = t;
+        if (ntok == 2 && 0 == strcmp(tok[0], "x")) {
+            /* x <hex>: configparser.y:configparser_simplify_regex() on the string of a `=~`
+             * condition -> "<cond> <stored string hex>" */
+            size_t len; unsigned char *raw = unhex(tok[1], &len);
+            buffer *b = buffer_init();
+            buffer_copy_string_len(b, (char *)raw, len);
+            config_cond_t cond = configparser_simplify_regex(b);
+            fputs(cond_nm(cond), stdout); fputc(' ', stdout);
+            puthex(b->ptr, buffer_clen(b));
+            fputc('\n', stdout);
+            buffer_free(b); free(raw);
+            continue;
+        }
         const int is_srv = (ntok >= 3 && 0 == strcmp(tok[0], "srv"));
         if (ntok < 3 || (0 != strcmp(tok[0], "c") && !is_srv)) { puts("bad-op"); continue; }
         int sep = -1;
